@@ -898,7 +898,63 @@ def _len_copies(f, ln):
     return out
 
 
-def _len_positive_edge(g, ln, edge, copies=()):
+def _byte_or_sentinel_helpers(prog):
+    """Functions (cursor**, len*) that return a negative constant exactly where *len == 0 and a byte otherwise."""
+    out = set()
+    for f in prog.functions.values():
+        lens = [p_ for p_ in f.params if (p_.get("ct") or p_.get("t") or "").replace(" ", "") == "unsignedchar*"]
+        if not lens or f.body is None:
+            continue
+        g = Guards(f)
+        neg = other = 0
+        ok = True
+        for n in f.walk():
+            if n.get("k") != "ReturnStmt" or not n.get("c"):
+                continue
+            v = folded(n["c"][0])
+            if v is not None and v < 0:
+                neg += 1
+                zero = any(rel == "==" and (folded(l) == 0 or folded(rr) == 0) and
+                           any(x.get("k") == "UnaryOperator" and x.get("op") == "*" and (strip_all(x["c"][0]) or {}).get("d") == lens[0]["d"]
+                               for side in (l, rr) for x in walk(side)) for l, rel, rr in (g.cmps(n) or []))
+                zero = zero or any((not truth) and (strip_all(a) or {}).get("k") == "UnaryOperator" and (strip_all(a) or {}).get("op") == "*" and
+                                   (strip_all((strip_all(a))["c"][0]) or {}).get("d") == lens[0]["d"] for a, truth in (g.truths(n) or []))
+                if not zero:
+                    ok = False
+            elif v is None:
+                other += 1
+            else:
+                ok = False
+        if ok and neg and other:
+            out.add(f.key)
+    return out
+
+
+def _sentinel_results(prog, f, helpers):
+    """Locals of f that hold the result of a byte-or-sentinel helper."""
+    out = set()
+    for n in f.walk():
+        tgt = rhs = None
+        if n.get("k") == "VarDecl" and n.get("c"):
+            tgt, rhs = n["d"], strip_all(n["c"][0])
+        elif n.get("k") == "BinaryOperator" and n.get("op") == "=" and (strip_all(n["c"][0]) or {}).get("k") == "DeclRefExpr":
+            tgt, rhs = strip_all(n["c"][0])["d"], strip_all(n["c"][1])
+        if rhs is not None and rhs.get("k") == "CallExpr" and rhs.get("fn") in helpers:
+            out.add(tgt)
+    return out
+
+
+def _len_positive_edge(g, ln, edge, copies=(), sentinels=()):
+    for k in g.edge_facts.get(edge, ()):
+        f = g.rep.get(k)
+        if f is not None and f[0] == "C":
+            for l, rel, r_ in ((f[1], f[2], f[3]), (f[3], flow.SWAP[f[2]], f[1])):
+                a = strip_all(l)
+                c = folded(r_)
+                if a is not None and a.get("k") == "DeclRefExpr" and a.get("d") in sentinels and c is not None:
+                    if (rel == ">=" and c >= 0) or (rel == ">" and c >= -1) or (rel == "!=" and c == -1):
+                        return True     # the helper delivered a byte: one was there
+
     def is_len(a):
         if a is None:
             return False
@@ -929,10 +985,12 @@ def rule_extension_needs_byte(prog, fixture=False):
                    "handler: a token cut off by the end of the line is never expanded", floor=0 if fixture else 2)
     hs = _extension_handlers(prog)
     hkeys = {f.key for f, _, _ in hs}
+    helpers = _byte_or_sentinel_helpers(prog)
     for f, cur, ln in hs:
         g = Guards(f)
         cfg = f.cfg
         copies = _len_copies(f, ln)
+        sentinels = _sentinel_results(prog, f, helpers)
         # success returns
         targets = {}
         for n in f.walk():
@@ -955,7 +1013,7 @@ def rule_extension_needs_byte(prog, fixture=False):
             for s_ in cfg.succ[b]:
                 if s_ < 0 or s_ in seen or s_ not in cfg.blocks:
                     continue
-                if _len_positive_edge(g, ln, (b, s_), copies):
+                if _len_positive_edge(g, ln, (b, s_), copies, sentinels):
                     continue
                 seen.add(s_)
                 parent[s_] = b
